@@ -12,6 +12,7 @@ import (
 	"sort"
 	"strconv"
 	"strings"
+	"sync"
 
 	"github.com/scigolib/hdf5/internal/core"
 	"github.com/scigolib/hdf5/internal/structures"
@@ -203,7 +204,22 @@ func (x *c17Ext) kindAt(off uint64) string {
 
 const c17MaxRef = 64 << 10
 
-func c17SeedList(tier string) []int {
+var (
+	c17SeedMu    sync.Mutex
+	c17SeedCache = map[string][]int{}
+)
+
+// c17SeedList chooses the seed files: library-written seeds, a regular sample of the corpus
+// up to 64 KiB, and - so that every kind of structure the corpus contains is cut and
+// faulted - a greedy cover: files are added (in corpus order) while they contribute a
+// structure kind that fewer than `cover` chosen files contain.
+func c17SeedList(tier string, wide bool) []int {
+	c17SeedMu.Lock()
+	defer c17SeedMu.Unlock()
+	ckey := fmt.Sprintf("%s/%v", tier, wide)
+	if l, ok := c17SeedCache[ckey]; ok {
+		return l
+	}
 	c07Init()
 	var out []int
 	for k := 0; k < c07LibSeeds; k++ {
@@ -211,6 +227,18 @@ func c17SeedList(tier string) []int {
 			out = append(out, k)
 		}
 	}
+	every, cover := 40, 2
+	if tier == "thorough" {
+		every, cover = 4, 8
+	}
+	if wide { // the truncation space is cheap (no process per fault): many more files
+		every, cover = 10, 8
+		if tier == "thorough" {
+			every, cover = 1, 1
+		}
+	}
+	chosen := map[int]bool{}
+	kindCount := map[string]int{}
 	n := 0
 	for i, f := range c07Seeds {
 		st, err := os.Stat(f)
@@ -218,10 +246,53 @@ func c17SeedList(tier string) []int {
 			continue
 		}
 		n++
-		if tier == "thorough" && n%4 == 0 || tier != "thorough" && n%40 == 0 {
+		take := n%every == 0
+		b, rerr := os.ReadFile(f)
+		if rerr != nil {
+			continue
+		}
+		kinds := map[string]bool{}
+		for _, e := range c17Extents(b).ext {
+			kinds[e.Kind] = true
+		}
+		// ... and every kind of answer the reader gives on the intact file (a fault can only turn
+		// an answer into a different one where there is an answer)
+		d := dump.File(f, dump.Options{MaxObjects: 300, MaxElems: 1 << 16})
+		for _, o := range d.Objects {
+			if o.Kind == "dataset" {
+				if o.ReadRes.OK() {
+					kinds[fmt.Sprintf("read-ok:layout%d:class%d", o.Layout, o.TypeClass)] = true
+				}
+				if o.StringsRes.OK() {
+					kinds[fmt.Sprintf("strings-ok:layout%d", o.Layout)] = true
+				}
+				if o.CompoundRes.OK() {
+					kinds[fmt.Sprintf("compound-ok:layout%d", o.Layout)] = true
+				}
+			}
+			for _, a := range o.Attrs {
+				if a.ValueRes.OK() {
+					kinds[fmt.Sprintf("attr-value-ok:%s:class%d", o.Kind, a.Class)] = true
+				}
+			}
+			if len(o.Attrs) >= 8 {
+				kinds["many-attributes:"+o.Kind] = true
+			}
+		}
+		for k := range kinds {
+			if kindCount[k] < cover {
+				take = true
+			}
+		}
+		if take && !chosen[i] {
+			chosen[i] = true
 			out = append(out, c07LibSeeds+i)
+			for k := range kinds {
+				kindCount[k]++
+			}
 		}
 	}
+	c17SeedCache[ckey] = out
 	return out
 }
 
@@ -242,13 +313,13 @@ type c17Case struct {
 }
 
 func c17Plan(tier string) []c17Case {
-	seeds := c17SeedList(tier)
+	seeds := c17SeedList(tier, false)
 	var out []c17Case
-	tb, rb := 4, 4
+	tb, rb := 2, 4
 	if tier == "thorough" {
-		tb, rb = 8, 16
+		tb, rb = 4, 16
 	}
-	for _, s := range seeds {
+	for _, s := range c17SeedList(tier, true) {
 		for b := 0; b < tb; b++ {
 			out = append(out, c17Case{c17T, s, b, tb})
 		}
@@ -822,7 +893,7 @@ func c17WriteFaults(c *ev.Ctx, cs c17Case) {
 var C17 = &ev.Property{
 	ID:    "C17",
 	Level: "fault_enumeration",
-	Rule: "seed files: the 24 fixed library-written files of C07 (quick: 12) and every 4th (quick: 40th) corpus file up to 64 KiB. T: every truncation length of files up to 16 KiB, for larger files every structure boundary +-{0,1,2,7,8} and every 64th byte; R: every position k of a failing pread64 (EIO) in the I/O sequence of a complete dump through the public reader (strace injection into a worker that runs on one locked OS thread; the strace log is the ground truth of which read failed; quick: k <= 160 on a third of the seeds); C: every position k of a failing and of a short ReadAt under ReadSuperblock, ReadObjectHeader (+ attributes), ReadDatasetFloat64/Strings/Compound, LoadLocalHeap, ParseSymbolTableNode, ReadGroupBTreeEntries, ReadGlobalHeapCollection at the addresses of up to six structures of each kind per file; W: every position k of a failing pwrite64 (ENOSPC) in 6 (thorough: 24) writer histories. Oracle: each call result under the fault is an error or equals the result on the intact file; group member lists and attribute lists do not shrink; no panic, no dead worker; a write fault that no call reports must leave a file equal to the fault-free one. " +
+	Rule: "seed files: the 24 fixed library-written files of C07 (quick: 12) and, of the corpus files up to 64 KiB (space T: all of them in the thorough tier, every 10th plus a cover of 8 in the quick tier), every 4th (quick: 40th) plus a greedy cover that keeps adding files while they contain a structure kind, or a kind of answer of the reader on the intact file (layout x datatype class of readable datasets, string/compound reads, datatype class of readable attribute values, many attributes), that fewer than 8 (quick: 2) chosen files contain. T: every truncation length of files up to 16 KiB, for larger files every structure boundary +-{0,1,2,7,8} and every 64th byte; R: every position k of a failing pread64 (EIO) in the I/O sequence of a complete dump through the public reader (strace injection into a worker that runs on one locked OS thread; the strace log is the ground truth of which read failed; quick: k <= 160 on a third of the seeds); C: every position k of a failing and of a short ReadAt under ReadSuperblock, ReadObjectHeader (+ attributes), ReadDatasetFloat64/Strings/Compound, LoadLocalHeap, ParseSymbolTableNode, ReadGroupBTreeEntries, ReadGlobalHeapCollection at the addresses of up to six structures of each kind per file; W: every position k of a failing pwrite64 (ENOSPC) in 6 (thorough: 24) writer histories. Oracle: each call result under the fault is an error or equals the result on the intact file; group member lists and attribute lists do not shrink; no panic, no dead worker; a write fault that no call reports must leave a file equal to the fault-free one. " +
 		"non-trivial: at least one fault was delivered; distinct = (space, seed, block).",
 	Assumptions: []string{"strace's when=k counts per thread: the workers pin the goroutine that does the I/O to one OS thread (GOMAXPROCS=1, LockOSThread) and the log is checked for a delivered fault"},
 	Cases:       func(tier string) int { return len(c17Plan(tier)) },
